@@ -283,6 +283,22 @@ def check_case(res, st, from_parts, key):
     if a != b:
         res.violation("nested-differs", "nested and flat forms contain different nodes", case, observed=b, expected=a)
         return
+    # ---- asking the same schema object again gives the same trees (H flavour: repeated calls)
+    res.count("transitions", 3)
+    try:
+        flat2 = schema.to_tree(nested=False, from_path=mk_from())
+        nested2 = schema.to_tree(nested=True, from_path=mk_from())
+        nested3 = schema.to_tree(nested=True, from_path=mk_from())
+    except BaseException as e:
+        res.violation("to_tree-again-raises:%s" % type(e).__name__, "a repeated to_tree call raised %r" % (e,), case, observed=repr(e))
+        return
+    sig_ = lambda nodes: sorted((repr(tuple(n.get("path", ()))), id(n.get("condition")) if n.get("condition") is not None else 0,
+                                 bool(n.get("required"))) for n in nodes)
+    if sig_(flat2) != sig_(flat) or sig_(flatten_nested(nested2)) != sig_(fn) or sig_(flatten_nested(nested3)) != sig_(fn):
+        res.violation("repeat-differs", "a repeated to_tree call on the same schema gives a different tree (%d / %d / %d nodes, "
+                      "first call %d)" % (len(flat2), len(flatten_nested(nested2)), len(flatten_nested(nested3)), len(flat)), case,
+                      observed=[len(flat2), len(flatten_nested(nested2)), len(flatten_nested(nested3))], expected=len(flat))
+        return
     # ---- required flags
     by_path = {}
     for n in flat:
